@@ -20,7 +20,7 @@ PDUBUF_ASSUMPTIONS = [
 
 PDUBUF_BOUNDS = ('configurations <61,61>, <100,100>, <29,29> (each ring holds one PDU), <100,61>; max_rx_size = max_tx_size = 29 (default after reset), and 50 on <100,100> (thorough); '
                  'histories of K connection events from reset_pdu_buffer(), every event fully symbolic (the shape of the first event is enumerated by case split): '
-                 'quick: <29,29> K=3 with payload lengths symbolic in 1..27, <61,61> K=2 with symbolic lengths; '
+                 'quick: <29,29> K=3 with payload lengths symbolic in 1..27, <61,61> K=2 with symbolic lengths, <100,100> with max size 50 K=1 (all first events) and K=2 (first event a delivered or MIC-failed data PDU) with payload lengths symbolic in 1..48; '
                  'thorough: <29,29> K=4 symbolic lengths, <61,61> K=4 all payloads 27 bytes (ring fills after two PDUs) and K=3 symbolic lengths, <100,61> K=3 each payload 1 or 27 bytes, <100,100> with size 50 K=3 each payload 1 or 48 bytes; '
                  'after the last event the host takes up to 2 more PDUs; payload identity is checked on header, first and last payload byte. '
                  'Note: on <29,29> the receive ring accepts exactly one PDU per connection (after it was freed the ring is empty with front_ == end_ in the middle and alloc_front() finds no 29 contiguous bytes), '
@@ -46,6 +46,9 @@ def pdubuf_cases(prop, tier):
     if tier == 'quick':
         cs += split(dict(base, CFG=2, K=3))
         cs += [dict(base, CFG=0, K=2)]
+        # data length extension: payload lengths above 27 (all lengths 1..48 symbolic) in short histories on <100,100>
+        cs += split(dict(base, CFG=1, K=1, MAXSZ=50, LMAX=48))
+        cs += [dict(base, CFG=1, K=2, MAXSZ=50, LMAX=48, E0=e) for e in shapes(prop) if (e >> 2) in (0, 3) and not (e & 2)]
     else:
         cs += split(dict(base, CFG=2, K=4))
         cs += split(dict(base, CFG=0, K=4, LMODE=1))
